@@ -54,7 +54,7 @@ LInv ==
        \/ /\ buf = 0 /\ pend >= 1 /\ ~(n0 <= room0)
           /\ \E k \in Nat : /\ n0 - room0 = k * P + pend
                             /\ segs = s0 + 1 + k
-                            /\ emitted = First \o Fulls(k, FALSE)
+                            /\ emitted = First \o Fulls(k)
   /\ pc = "done" => pend = 0 /\ WriteResult(b0, s0, e0, n0, buf, segs, emitted)
 
 Returned == pc = "done" => /\ WriteResult(b0, s0, e0, n0, buf, segs, emitted)
@@ -64,23 +64,23 @@ Returned == pc = "done" => /\ WriteResult(b0, s0, e0, n0, buf, segs, emitted)
 LEMMA Room0 == room0 \in Nat /\ Cap(s0 + 1) \in Nat /\ First \in Seq(SegRec) /\ Len(First) = s0 + 1
   BY Call, Params DEF room0, Cap, First, Seg, SegRec
 
-LEMMA FullsType == \A k \in Nat : Fulls(k, FALSE) \in Seq(SegRec) /\ Len(Fulls(k, FALSE)) = k
+LEMMA FullsType == \A k \in Nat : Fulls(k) \in Seq(SegRec) /\ Len(Fulls(k)) = k
   BY Params DEF Fulls, Seg, SegRec
 
-LEMMA FullsZero == First \o Fulls(0, FALSE) = First
-<1>1. Fulls(0, FALSE) = << >>
+LEMMA FullsZero == First \o Fulls(0) = First
+<1>1. Fulls(0) = << >>
   BY DEF Fulls
 <1> QED BY <1>1, Room0
 
-LEMMA FullsStep == \A k \in Nat : Append(First \o Fulls(k, FALSE), Seg(P, FALSE)) = First \o Fulls(k + 1, FALSE)
-<1> SUFFICES ASSUME NEW k \in Nat PROVE Append(First \o Fulls(k, FALSE), Seg(P, FALSE)) = First \o Fulls(k + 1, FALSE)
+LEMMA FullsStep == \A k \in Nat : Append(First \o Fulls(k), Seg(P, FALSE)) = First \o Fulls(k + 1)
+<1> SUFFICES ASSUME NEW k \in Nat PROVE Append(First \o Fulls(k), Seg(P, FALSE)) = First \o Fulls(k + 1)
   OBVIOUS
-<1> DEFINE l == Append(First \o Fulls(k, FALSE), Seg(P, FALSE))
-<1> DEFINE r == First \o Fulls(k + 1, FALSE)
+<1> DEFINE l == Append(First \o Fulls(k), Seg(P, FALSE))
+<1> DEFINE r == First \o Fulls(k + 1)
 <1>0. Seg(P, FALSE) \in SegRec
   BY Params DEF Seg, SegRec
-<1>1. Fulls(k, FALSE) \in Seq(SegRec) /\ Len(Fulls(k, FALSE)) = k
-      /\ Fulls(k + 1, FALSE) \in Seq(SegRec) /\ Len(Fulls(k + 1, FALSE)) = k + 1
+<1>1. Fulls(k) \in Seq(SegRec) /\ Len(Fulls(k)) = k
+      /\ Fulls(k + 1) \in Seq(SegRec) /\ Len(Fulls(k + 1)) = k + 1
   BY FullsType
 <1>2. l \in Seq(SegRec) /\ r \in Seq(SegRec) /\ Len(l) = s0 + 1 + k + 1 /\ Len(r) = s0 + 1 + k + 1
   BY <1>0, <1>1, Room0, Call
@@ -88,13 +88,13 @@ LEMMA FullsStep == \A k \in Nat : Append(First \o Fulls(k, FALSE), Seg(P, FALSE)
   <2>1. CASE i <= s0 + 1
     BY <2>1, <1>0, <1>1, <1>2, Room0, Call
   <2>2. CASE i > s0 + 1 /\ i <= s0 + 1 + k
-    <3>1. l[i] = Fulls(k, FALSE)[i - (s0 + 1)] /\ r[i] = Fulls(k + 1, FALSE)[i - (s0 + 1)]
+    <3>1. l[i] = Fulls(k)[i - (s0 + 1)] /\ r[i] = Fulls(k + 1)[i - (s0 + 1)]
       BY <2>2, <1>0, <1>1, <1>2, Room0, Call
     <3>2. i - (s0 + 1) \in 1..k /\ i - (s0 + 1) \in 1..(k + 1)
       BY <2>2, Call
     <3> QED BY <3>1, <3>2 DEF Fulls
   <2>3. CASE i = s0 + 1 + k + 1
-    <3>1. l[i] = Seg(P, FALSE) /\ r[i] = Fulls(k + 1, FALSE)[k + 1]
+    <3>1. l[i] = Seg(P, FALSE) /\ r[i] = Fulls(k + 1)[k + 1]
       BY <2>3, <1>0, <1>1, <1>2, Room0, Call
     <3> QED BY <3>1 DEF Fulls
   <2> QED BY <2>1, <2>2, <2>3, <1>2, Call
@@ -125,7 +125,7 @@ THEOREM LNextInv == LInv /\ [Iter]_lvars => LInv'
     <3>2. /\ buf' = 0 /\ pend' = n0 - room0 /\ pc' = "loop" /\ segs' = s0 + 1
           /\ emitted' = First /\ written' = written + room0 /\ closed' = closed
       BY <1>2, <3>1 DEF Iter, First
-    <3>3. 0 \in Nat /\ n0 - room0 = 0 * P + pend' /\ segs' = s0 + 1 + 0 /\ emitted' = First \o Fulls(0, FALSE)
+    <3>3. 0 \in Nat /\ n0 - room0 = 0 * P + pend' /\ segs' = s0 + 1 + 0 /\ emitted' = First \o Fulls(0)
       BY <3>2, <2>2, FullsZero, Room0, Call, Params
     <3>4. pend' \in Nat /\ pend' >= 1 /\ written' \in Nat /\ written' + pend' = w0 + n0
       BY <3>2, <2>2, <1>2, Room0, Call DEF LInv
@@ -134,10 +134,10 @@ THEOREM LNextInv == LInv /\ [Iter]_lvars => LInv'
 <1>3. CASE /\ Iter /\ buf = 0 /\ pend >= 1 /\ ~(n0 <= room0)
            /\ \E k \in Nat : /\ n0 - room0 = k * P + pend
                              /\ segs = s0 + 1 + k
-                             /\ emitted = First \o Fulls(k, FALSE)
+                             /\ emitted = First \o Fulls(k)
   <2>0. PICK k \in Nat : /\ n0 - room0 = k * P + pend
                          /\ segs = s0 + 1 + k
-                         /\ emitted = First \o Fulls(k, FALSE)
+                         /\ emitted = First \o Fulls(k)
     BY <1>3
   <2>1. Cap(segs + 1) = P /\ pend \in Nat /\ k * P \in Nat
     BY <2>0, Call, Params DEF Cap, LInv
@@ -160,7 +160,7 @@ THEOREM LNextInv == LInv /\ [Iter]_lvars => LInv'
       BY <1>3, <2>1, <3>1 DEF Iter
     <3>3. k + 1 \in Nat /\ n0 - room0 = (k + 1) * P + pend' /\ segs' = s0 + 1 + (k + 1)
       BY <3>2, <2>0, <2>1, <2>3, Params, Call
-    <3>4. emitted' = First \o Fulls(k + 1, FALSE)
+    <3>4. emitted' = First \o Fulls(k + 1)
       BY <3>2, <2>0, FullsStep
     <3>5. pend' \in Nat /\ pend' >= 1 /\ written' \in Nat /\ written' + pend' = w0 + n0
       BY <3>2, <2>1, <2>3, Params DEF LInv
